@@ -3,7 +3,7 @@
     (spelling irrelevance).  Part 2: the flush order.  Part 3: rejection of ill-formed items.
     Part 4: what a successful build stores (ids, memberships, values).  Part 5: axes. *)
 From Coq Require Import ZArith QArith List Bool String Lia Permutation Sorted.
-From Verif Require Import Base Cal Tables Period Builder.
+From Verif Require Import Base Cal Tables Period Builder CalProofs.
 Import ListNotations.
 Open Scope Z_scope.
 Open Scope res_scope.
@@ -838,4 +838,376 @@ Proof.
       cbn [index_of] in I. destruct (String.eqb a gid) eqn:Q; [discriminate|].
       destruct Hg as [->|Hg]; [rewrite String.eqb_refl in Q; discriminate|].
       destruct (index_of gid l); [discriminate|]. apply IH; [assumption|reflexivity].
+Qed.
+
+(** * 4. What the builder stores *)
+
+Lemma bp_unit_eqb_eq a b : unit_eqb a b = true <-> a = b.
+Proof. destruct a, b; cbn; split; intros H; try reflexivity; discriminate. Qed.
+
+Lemma bp_period_eqb_eq p q : period_eqb p q = true <-> p = q.
+Proof.
+  destruct p as [[u s] n], q as [[u' s'] n'].
+  unfold period_eqb, p_unit, p_start, p_size; cbn [fst snd].
+  rewrite !andb_true_iff, bp_unit_eqb_eq, CalProofs.date_eqb_eq, Z.eqb_eq.
+  split; [intros [[-> ->] ->]; reflexivity | intros H; inversion H; auto].
+Qed.
+
+Lemma bp_period_eqb_refl p : period_eqb p p = true.
+Proof. apply bp_period_eqb_eq. reflexivity. Qed.
+
+Lemma bp_period_eqb_neq p q : p <> q -> period_eqb p q = false.
+Proof.
+  intros H. destruct (period_eqb p q) eqn:E; [|reflexivity].
+  apply bp_period_eqb_eq in E. contradiction.
+Qed.
+
+Lemma aget_aset_same {A} k (v : A) l : aget k (aset k v l) = Some v.
+Proof.
+  induction l as [|[k' w] l IH]; cbn [aset aget].
+  - rewrite String.eqb_refl. reflexivity.
+  - destruct (String.eqb k' k) eqn:E; cbn [aget]; rewrite E; [reflexivity|assumption].
+Qed.
+
+Lemma aget_aset_other {A} k k' (v : A) l : k <> k' -> aget k (aset k' v l) = aget k l.
+Proof.
+  intros N. induction l as [|[k0 w] l IH]; cbn [aset aget].
+  - destruct (String.eqb k' k) eqn:E; [apply String.eqb_eq in E; congruence|reflexivity].
+  - destruct (String.eqb k0 k') eqn:E; cbn [aget].
+    + apply String.eqb_eq in E. subst k0.
+      destruct (String.eqb k' k) eqn:E'; [apply String.eqb_eq in E'; congruence|reflexivity].
+    + destruct (String.eqb k0 k); [reflexivity|assumption].
+Qed.
+
+Lemma hget_hput_same h p a : hget (hput h p a) p = Some a.
+Proof.
+  induction h as [|[k w] h IH]; cbn [hput hget].
+  - rewrite bp_period_eqb_refl. reflexivity.
+  - destruct (period_eqb k p) eqn:E; cbn [hget]; rewrite E; [reflexivity|assumption].
+Qed.
+
+Lemma hget_hput_other h p q a : q <> p -> hget (hput h p a) q = hget h q.
+Proof.
+  intros N. induction h as [|[k w] h IH]; cbn [hput hget].
+  - rewrite bp_period_eqb_neq; [reflexivity|congruence].
+  - destruct (period_eqb k p) eqn:E; cbn [hget].
+    + apply bp_period_eqb_eq in E. subst k. rewrite !bp_period_eqb_neq by congruence. reflexivity.
+    + destruct (period_eqb k q); [reflexivity|assumption].
+Qed.
+
+Lemma aget_app_fresh {A} k (v : A) l : aget k l = None -> aget k (l ++ [(k, v)]) = Some v.
+Proof.
+  induction l as [|[k' w] l IH]; cbn [app aget]; intros H.
+  - rewrite String.eqb_refl. reflexivity.
+  - destruct (String.eqb k' k); [discriminate|apply IH; assumption].
+Qed.
+
+Lemma aget_app_other {A} k k' (v : A) l : k <> k' -> aget k (l ++ [(k', v)]) = aget k l.
+Proof.
+  intros N. induction l as [|[k0 w] l IH]; cbn [app aget].
+  - destruct (String.eqb k' k) eqn:E; [apply String.eqb_eq in E; congruence|reflexivity].
+  - destruct (String.eqb k0 k); [reflexivity|assumption].
+Qed.
+
+Lemma buf_get_touch b vn vn' p : buf_get (buf_touch b vn) vn' p = buf_get b vn' p.
+Proof.
+  unfold buf_touch, buf_get. destruct (aget vn b) eqn:E; [reflexivity|].
+  destruct (String.eqb vn' vn) eqn:Q.
+  - apply String.eqb_eq in Q. subst. rewrite aget_app_fresh, E by assumption. reflexivity.
+  - rewrite aget_app_other; [reflexivity|]. intros ->. rewrite String.eqb_refl in Q. discriminate.
+Qed.
+
+Lemma buf_get_put_same b vn p a : buf_get (buf_put b vn p a) vn p = Some a.
+Proof.
+  unfold buf_put, buf_get. destruct (aget vn b) eqn:E.
+  - rewrite aget_aset_same. apply hget_hput_same.
+  - rewrite aget_app_fresh by assumption. cbn [hget]. rewrite bp_period_eqb_refl. reflexivity.
+Qed.
+
+Lemma buf_get_put_other b vn p a vn' p' :
+  (vn', p') <> (vn, p) -> buf_get (buf_put b vn p a) vn' p' = buf_get b vn' p'.
+Proof.
+  intros N. unfold buf_put, buf_get. destruct (String.eqb vn' vn) eqn:Q.
+  - apply String.eqb_eq in Q. subst vn'.
+    assert (p' <> p) as Np by congruence.
+    destruct (aget vn b) eqn:E.
+    + rewrite aget_aset_same. apply hget_hput_other. assumption.
+    + rewrite aget_app_fresh by assumption. cbn [hget]. rewrite bp_period_eqb_neq by congruence.
+      reflexivity.
+  - assert (vn' <> vn) as Nv by (intros ->; rewrite String.eqb_refl in Q; discriminate).
+    destruct (aget vn b) eqn:E.
+    + rewrite aget_aset_other by assumption. reflexivity.
+    + rewrite aget_app_other by assumption. reflexivity.
+Qed.
+
+Lemma nth_error_list_set_same {A} (l : list A) n x :
+  (n < List.length l)%nat -> nth_error (list_set n x l) n = Some x.
+Proof.
+  revert n. induction l as [|y l IH]; intros n H; cbn [List.length] in H; [lia|].
+  destruct n; cbn [list_set nth_error]; [reflexivity|]. apply IH. lia.
+Qed.
+
+Lemma nth_error_list_set_other {A} (l : list A) n m x :
+  n <> m -> nth_error (list_set n x l) m = nth_error l m.
+Proof.
+  revert n m. induction l as [|y l IH]; intros n m H; [destruct n; reflexivity|].
+  destruct n, m; cbn [list_set nth_error]; try reflexivity; [congruence|]. apply IH. congruence.
+Qed.
+
+Lemma list_set_length {A} (l : list A) n x : List.length (list_set n x l) = List.length l.
+Proof.
+  revert n. induction l as [|y l IH]; intros n; [destruct n; reflexivity|].
+  destruct n; cbn [list_set List.length]; [reflexivity|]. rewrite IH. reflexivity.
+Qed.
+
+(** add_variable_value places the converted value in the array buffered under the canonical
+    form of the key, at the instance's index; every other cell of that array, every other
+    buffered array, the ids, memberships and roles are untouched. *)
+Lemma add_variable_value_spec x st e v idx t value st' :
+  value <> JNull ->
+  add_variable_value x st e v idx t value = Ok st' ->
+  exists p c old,
+    canon_key (tok x t) = Ok p /\ check_set_value x v value = Ok c /\
+    old = match buf_get (b_buffer st) (v_name v) p with
+          | Some a => a
+          | None => default_array v (get_count st (e_plural e))
+          end /\
+    (idx < List.length old)%nat /\
+    buf_get (b_buffer st') (v_name v) p = Some (list_set idx c old) /\
+    (forall vn' p', (vn', p') <> (v_name v, p) ->
+                    buf_get (b_buffer st') vn' p' = buf_get (b_buffer st) vn' p') /\
+    b_ids st' = b_ids st /\ b_members st' = b_members st /\ b_roles st' = b_roles st /\
+    b_ax_ids st' = b_ax_ids st.
+Proof.
+  intros Hn H. unfold add_variable_value in H.
+  assert (bind (canon_key (tok x t)) (fun p =>
+            let b := buf_touch (b_buffer st) (v_name v) in
+            let array := match buf_get b (v_name v) p with
+                         | Some a => a
+                         | None => default_array v (get_count st (e_plural e)) end in
+            match check_set_value x v value with
+            | Ok c => if Nat.ltb idx (List.length array)
+                      then Ok (set_buffer st (buf_put b (v_name v) p (list_set idx c array)))
+                      else Err EIndex
+            | Err EValue => Err ESituation
+            | Err k => Err k
+            end) = Ok st') as H'.
+  { destruct value; try contradiction; exact H. }
+  clear H. apply bind_ok in H'. destruct H' as (p & Hp & H).
+  cbv zeta in H. rewrite buf_get_touch in H.
+  destruct (check_set_value x v value) as [c|k] eqn:C; [|destruct k; discriminate].
+  destruct (Nat.ltb idx _) eqn:L; [|discriminate]. inversion H; subst st'. clear H.
+  apply Nat.ltb_lt in L.
+  exists p, c, (match buf_get (b_buffer st) (v_name v) p with
+                | Some a => a | None => default_array v (get_count st (e_plural e)) end).
+  repeat split; try assumption; cbn [set_buffer b_buffer b_ids b_members b_roles b_ax_ids].
+  - apply buf_get_put_same.
+  - intros vn' p' N. rewrite buf_get_put_other by assumption. apply buf_get_touch.
+Qed.
+
+(** ** memberships and roles *)
+
+Lemma index_of_inj l : forall p q k, index_of p l = Some k -> index_of q l = Some k -> p = q.
+Proof.
+  induction l as [|a l IH]; intros p q k; cbn [index_of]; [discriminate|].
+  destruct (String.eqb a p) eqn:Ep, (String.eqb a q) eqn:Eq.
+  - apply String.eqb_eq in Ep, Eq. congruence.
+  - intros H1 H2. inversion H1; subst. destruct (index_of q l); discriminate.
+  - intros H1 H2. inversion H2; subst. destruct (index_of p l); discriminate.
+  - destruct (index_of p l) eqn:Ip, (index_of q l) eqn:Iq; try discriminate.
+    intros H1 H2. inversion H1; inversion H2; subst. eapply IH; [eassumption|].
+    rewrite Iq. f_equal. lia.
+Qed.
+
+Lemma index_of_lt l p k : index_of p l = Some k -> (k < List.length l)%nat.
+Proof.
+  revert k. induction l as [|a l IH]; intros k; cbn [index_of]; [discriminate|].
+  destruct (String.eqb a p); [intros H; inversion H; cbn; lia|].
+  destruct (index_of p l); [|discriminate]. intros H; inversion H; subst.
+  specialize (IH _ eq_refl). cbn. lia.
+Qed.
+
+(* the members of one role list: each gets the group's index and the (sub-)role of its rank;
+   the entries of the other persons are untouched *)
+Lemma assign_members_spec pids r gidx l : forall i mr,
+  NoDup l ->
+  List.length (fst mr) = List.length pids -> List.length (snd mr) = List.length pids ->
+  let mr' := assign_members pids r gidx i l mr in
+  List.length (fst mr') = List.length pids /\ List.length (snd mr') = List.length pids /\
+  (forall j pid k, nth_error l j = Some pid -> index_of pid pids = Some k ->
+     nth_error (fst mr') k = Some gidx /\ nth_error (snd mr') k = Some (role_at r (i + j))) /\
+  (forall k, (forall pid, In pid l -> index_of pid pids <> Some k) ->
+     nth_error (fst mr') k = nth_error (fst mr) k /\ nth_error (snd mr') k = nth_error (snd mr) k).
+Proof.
+  induction l as [|pid l IH]; intros i mr ND L1 L2; cbn [assign_members].
+  - split; [assumption|]. split; [assumption|]. split.
+    + intros [|j] q k H; discriminate.
+    + intros k _. split; reflexivity.
+  - inversion ND as [|? ? Hnotin ND']; subst.
+    set (mr1 := match index_of pid pids with
+                | Some k => (list_set k gidx (fst mr), list_set k (role_at r i) (snd mr))
+                | None => mr end).
+    assert (List.length (fst mr1) = List.length pids /\ List.length (snd mr1) = List.length pids)
+      as [L1' L2'].
+    { unfold mr1. destruct (index_of pid pids); cbn [fst snd]; rewrite ?list_set_length; auto. }
+    specialize (IH (S i) mr1 ND' L1' L2'). cbv zeta in IH.
+    destruct IH as (A & B & C & D). split; [assumption|]. split; [assumption|]. split.
+    + intros [|j] q k Hq Hk; cbn [nth_error] in Hq.
+      * inversion Hq; subst q.
+        assert (forall pid0, In pid0 l -> index_of pid0 pids <> Some k) as Fr.
+        { intros p0 Hp0 E. assert (p0 = pid) by (eapply index_of_inj; eassumption). subst. contradiction. }
+        destruct (D k Fr) as [D1 D2]. rewrite D1, D2. unfold mr1. rewrite Hk. cbn [fst snd].
+        pose proof (index_of_lt _ _ _ Hk) as Lt.
+        rewrite !nth_error_list_set_same by lia. rewrite Nat.add_0_r. split; reflexivity.
+      * replace (i + S j)%nat with (S i + j)%nat by lia. eapply C; eassumption.
+    + intros k Fr. destruct (D k) as [D1 D2].
+      { intros p0 Hp0. apply Fr. right. assumption. }
+      rewrite D1, D2. unfold mr1. destruct (index_of pid pids) as [k0|] eqn:E; [|split; reflexivity].
+      cbn [fst snd]. assert (k0 <> k) as N.
+      { intros ->. eapply Fr; [left; reflexivity|eassumption]. }
+      rewrite !nth_error_list_set_other by assumption. split; reflexivity.
+Qed.
+
+(* persons left out: person [own_j] gets the fresh group [g + j] and the first role; the
+   entries of the other persons are untouched *)
+Lemma allocate_own_spec pids first own : forall g mr,
+  NoDup own ->
+  List.length (fst mr) = List.length pids -> List.length (snd mr) = List.length pids ->
+  let mr' := allocate_own pids g first own mr in
+  List.length (fst mr') = List.length pids /\ List.length (snd mr') = List.length pids /\
+  (forall j pid k, nth_error own j = Some pid -> index_of pid pids = Some k ->
+     nth_error (fst mr') k = Some (Z.of_nat (g + j)) /\ nth_error (snd mr') k = Some first) /\
+  (forall k, (forall pid, In pid own -> index_of pid pids <> Some k) ->
+     nth_error (fst mr') k = nth_error (fst mr) k /\ nth_error (snd mr') k = nth_error (snd mr) k).
+Proof.
+  induction own as [|pid own IH]; intros g mr ND L1 L2; cbn [allocate_own].
+  - split; [assumption|]. split; [assumption|]. split.
+    + intros [|j] q k H; discriminate.
+    + intros k _. split; reflexivity.
+  - inversion ND as [|? ? Hnotin ND']; subst.
+    set (mr1 := match index_of pid pids with
+                | Some k => (list_set k (Z.of_nat g) (fst mr), list_set k first (snd mr))
+                | None => mr end).
+    assert (List.length (fst mr1) = List.length pids /\ List.length (snd mr1) = List.length pids)
+      as [L1' L2'].
+    { unfold mr1. destruct (index_of pid pids); cbn [fst snd]; rewrite ?list_set_length; auto. }
+    specialize (IH (S g) mr1 ND' L1' L2'). cbv zeta in IH.
+    destruct IH as (A & B & C & D). split; [assumption|]. split; [assumption|]. split.
+    + intros [|j] q k Hq Hk; cbn [nth_error] in Hq.
+      * inversion Hq; subst q.
+        assert (forall pid0, In pid0 own -> index_of pid0 pids <> Some k) as Fr.
+        { intros p0 Hp0 E. assert (p0 = pid) by (eapply index_of_inj; eassumption). subst. contradiction. }
+        destruct (D k Fr) as [D1 D2]. rewrite D1, D2. unfold mr1. rewrite Hk. cbn [fst snd].
+        pose proof (index_of_lt _ _ _ Hk) as Lt.
+        rewrite !nth_error_list_set_same by lia. rewrite Nat.add_0_r. split; reflexivity.
+      * replace (g + S j)%nat with (S g + j)%nat by lia. eapply C; eassumption.
+    + intros k Fr. destruct (D k) as [D1 D2].
+      { intros p0 Hp0. apply Fr. right. assumption. }
+      rewrite D1, D2. unfold mr1. destruct (index_of pid pids) as [k0|] eqn:E; [|split; reflexivity].
+      cbn [fst snd]. assert (k0 <> k) as N.
+      { intros ->. eapply Fr; [left; reflexivity|eassumption]. }
+      rewrite !nth_error_list_set_other by assumption. split; reflexivity.
+Qed.
+
+(* the arrays of the group kind's variables are padded with the default: the declared groups
+   keep their values, the added groups hold the default *)
+Lemma pad_array_spec v n a :
+  (List.length a <= n)%nat ->
+  List.length (pad_array v n a) = n /\
+  (forall i, (i < List.length a)%nat -> nth_error (pad_array v n a) i = nth_error a i) /\
+  (forall i, (List.length a <= i < n)%nat -> nth_error (pad_array v n a) i = Some (v_default v)).
+Proof.
+  intros L. unfold pad_array, default_array. repeat split.
+  - rewrite app_length, repeat_length. lia.
+  - intros i Hi. apply nth_error_app1. assumption.
+  - intros i Hi. rewrite nth_error_app2 by lia.
+    apply nth_error_repeat. lia.
+Qed.
+
+(** ** ids *)
+
+Lemma add_variable_value_ids x st e v idx t value st' :
+  add_variable_value x st e v idx t value = Ok st' ->
+  b_ids st' = b_ids st /\ b_ax_ids st' = b_ax_ids st.
+Proof.
+  destruct value; try (intros H; apply add_variable_value_spec in H; [|discriminate];
+                       destruct H as (p & c & old & H); tauto).
+  cbn. intros H; inversion H; subst. split; reflexivity.
+Qed.
+
+Lemma add_dated_ids x e v idx l : forall st st',
+  add_dated x st e v idx l = Ok st' -> b_ids st' = b_ids st /\ b_ax_ids st' = b_ax_ids st.
+Proof.
+  induction l as [|[t value] l IH]; intros st st'; cbn [add_dated].
+  - intros H; inversion H; subst. split; reflexivity.
+  - destruct (parse_key (tok x t)); [|discriminate]. intros H. apply bind_ok in H.
+    destruct H as (st1 & H1 & H2). apply add_variable_value_ids in H1. apply IH in H2.
+    destruct H1 as [A1 A2], H2 as [B1 B2]. split; congruence.
+Qed.
+
+Lemma init_variable_values_ids x s e id fields : forall st st',
+  init_variable_values x s st e fields id = Ok st' ->
+  b_ids st' = b_ids st /\ b_ax_ids st' = b_ax_ids st.
+Proof.
+  induction fields as [|[vn vals] fields IH]; intros st st'; cbn [init_variable_values].
+  - intros H; inversion H; subst. split; reflexivity.
+  - destruct (find_var vn (s_vars s)); [|discriminate].
+    destruct (negb _); [discriminate|]. destruct (index_of id _); [|discriminate].
+    destruct vals; try discriminate. intros H. apply bind_ok in H.
+    destruct H as (st1 & H1 & H2). apply add_dated_ids in H1. apply IH in H2.
+    destruct H1 as [A1 A2], H2 as [B1 B2]. split; congruence.
+Qed.
+
+Lemma add_person_instances_ids x s l : forall st st',
+  add_person_instances x s st l = Ok st' -> b_ids st' = b_ids st /\ b_ax_ids st' = b_ax_ids st.
+Proof.
+  induction l as [|[pid j] l IH]; intros st st'; cbn [add_person_instances].
+  - intros H; inversion H; subst. split; reflexivity.
+  - destruct j; try discriminate. intros H. apply bind_ok in H.
+    destruct H as (st1 & H1 & H2). apply init_variable_values_ids in H1. apply IH in H2.
+    destruct H1 as [A1 A2], H2 as [B1 B2]. split; congruence.
+Qed.
+
+(** one person per declared id, in declaration order *)
+Lemma add_person_entity_ids x s instances st :
+  add_person_entity x s b_empty instances = Ok st ->
+  get_ids st (e_plural (s_person s)) = map fst instances.
+Proof.
+  unfold add_person_entity. intros H. apply add_person_instances_ids in H.
+  destruct H as [Hi Ha]. unfold get_ids, ids_of. rewrite Ha, Hi. cbn.
+  rewrite String.eqb_refl. reflexivity.
+Qed.
+
+Lemma add_group_instances_ids x s e pids eids l : forall st todo mr st' todo' mr',
+  add_group_instances x s e pids eids l st todo mr = Ok (st', todo', mr') ->
+  b_ids st' = b_ids st /\ b_ax_ids st' = b_ax_ids st.
+Proof.
+  induction l as [|[gid j] l IH]; intros st todo mr st' todo' mr'; cbn [add_group_instances].
+  - intros H; inversion H; subst. split; reflexivity.
+  - destruct j; try discriminate. intros H. apply bind_ok in H. destruct H as (t1 & _ & H).
+    destruct (index_of gid eids); [|discriminate].
+    apply bind_ok in H. destruct H as (m1 & _ & H).
+    apply bind_ok in H. destruct H as (st1 & H1 & H2).
+    apply init_variable_values_ids in H1. apply IH in H2.
+    destruct H1 as [A1 A2], H2 as [B1 B2]. split; congruence.
+Qed.
+
+(** one group per declared id, in declaration order, then one per person left out (in the
+    order [set_order] gives) *)
+Lemma add_group_entity_ids x s st pids e instances st' :
+  add_group_entity x s st pids e (JObj instances) = Ok st' ->
+  exists st1 todo mr,
+    add_group_instances x s e pids (map fst instances) instances
+      (set_ids st (e_plural e) (map fst instances)) pids
+      (repeat 0 (List.length pids), repeat EmptyString (List.length pids)) = Ok (st1, todo, mr) /\
+    aget (e_plural e) (b_ids st') = Some (map fst instances ++ match todo with [] => [] | _ => set_order x todo end).
+Proof.
+  unfold add_group_entity. intros H. apply bind_ok in H. destruct H as ([[st1 todo] mr] & H1 & H2).
+  exists st1, todo, mr. split; [assumption|].
+  pose proof (add_group_instances_ids _ _ _ _ _ _ _ _ _ _ _ _ H1) as [Hi _].
+  destruct todo as [|t todo].
+  - inversion H2; subst st'. cbn [set_roles set_members b_ids]. rewrite Hi. cbn [set_ids b_ids].
+    rewrite aget_aset_same, app_nil_r. reflexivity.
+  - inversion H2; subst st'. cbn [set_roles set_members set_buffer set_ids b_ids].
+    rewrite aget_aset_same. reflexivity.
 Qed.
